@@ -249,8 +249,9 @@ def mrf_cases(draw, tier="quick"):
 @st.composite
 def post_cases(draw, tier="quick"):
     mc = draw(c12.model_cases(tier))
-    # range geometry must be identity-like for a data distribution; keep generated domain geometry
-    if mc["ran"]["kind"] not in ("default", "cont1d", "discrete"):
+    # range geometry: identity-like, or an expansion (the gradient must then be refused: its chain rule is not implemented);
+    # the generated domain geometry is kept
+    if mc["ran"]["kind"] not in ("default", "cont1d", "discrete", "kl", "step"):
         mc["ran"] = {"kind": "cont1d", "fun_dim": int(np.prod(c12.fun_shape(mc["ran"]))), "x0": 0.0, "h": 1.0}
     m = c12.par_dim(mc["ran"])
     n = c12.par_dim(mc["dom"])
@@ -340,7 +341,7 @@ def build_post(c):
             objs["multi"] = J(y=data, y2=data2)
     if mutate is not None:
         mutate()
-    return objs, argname
+    return objs, argname, dom
 
 
 def run_post(c, rec):
@@ -354,20 +355,25 @@ def run_post(c, rec):
     if refused:
         rec.count("construction_refused:" + type(built).__name__)
         return
-    objs, argname = built
+    objs, argname, dom_geom = built
     x = A(c["x"])
     for name, obj in objs.items():
         if name == "multi":
             require(type(obj).__name__ == "MultipleLikelihoodPosterior", "harness: expected MultipleLikelihoodPosterior", got=type(obj).__name__)
         res = judge(name, obj.gradient, obj.logd, x, rec)
         rec.count(f"{name}:{res}")
-        if res == "checked" and mc["dom"]["kind"] not in ("user", "usermapped"):
+        raw_ = bool(mc.get("raw_ops")) and len(c12.fun_shape(mc["dom"])) == 1 and len(c12.fun_shape(mc["ran"])) == 1
+        twin = c12.make_geom(mc["dom"], raw_)
+        if res == "checked" and twin == dom_geom:
             # the evaluation point handed over as a geometry-carrying array - parameters or function values - whose geometry is an
             # equal geometry built separately (as after a deep copy of the model): the same gradient
-            twin = c12.make_geom(mc["dom"])
             g_plain = np.asarray(obj.gradient(x.copy()), dtype=float).reshape(-1)
-            for label, arr in (("parameters", cuqi.array.CUQIarray(x.copy(), is_par=True, geometry=twin)),
-                               ("function values", cuqi.array.CUQIarray(c12.ref_par2fun(mc["dom"], x), is_par=False, geometry=twin))):
+            # (function values only for the likelihood: it is the forward model that understands representations; a prior is a
+            # distribution over parameters)
+            reps = [("parameters", cuqi.array.CUQIarray(x.copy(), is_par=True, geometry=twin))]
+            if name == "likelihood":
+                reps.append(("function values", cuqi.array.CUQIarray(c12.ref_par2fun(mc["dom"], x), is_par=False, geometry=twin)))
+            for label, arr in reps:
                 r_, g_arr = refuses(lambda: obj.gradient(arr))
                 if r_ or g_arr is None:
                     rec.count("gradient_refused_for_cuqiarray:" + label)
